@@ -1,5 +1,6 @@
 import MakoModel.Path.Below
 import MakoModel.Path.Idem
+import MakoModel.Path.HistoryLemmas
 /-!
 # C09 – template lookup never escapes its configured directories
 
@@ -11,7 +12,10 @@ Reading of the property on the model (`MakoModel/Path/Model.lean`, tied to /repo
 * `Template.__init__` (reached from `_load` before any read of the file) rejects the URI unless
   `templateCheck uri`;
 * `<%include>`, `<%inherit>`, `<%namespace>` and the `Namespace` API first rewrite the URI with
-  `adjustUri` and then go through the same `get_template`.
+  `adjustUri` and then go through the same `get_template`;
+* the lookup as a state machine (`MakoModel/Path/History.lean`): `_collection` keyed by the URI as spelled,
+  `_check` on a hit, the directories probed in order on a miss, `has_template` = "`get_template` succeeds", and a
+  file system whose set of regular files changes arbitrarily between calls.
 
 `Below d p` says: the *string* `p` is `d`, or `d` + `/` + one or more ordinary name components
 (no `..`, `.`, empty or slash-containing component) – the usual "real path starts with the root" test,
@@ -172,6 +176,58 @@ theorem module_path_contained (moddir uri : List Char) (h : templateCheck uri = 
   · rw [splitSlash_joinSlash cs hcs1 (fun c hc => (hgood c hc).2), run_names false [] cs hcs2]
     intro c hc
     exact hcs2 c (by simpa using hc)
+
+/-! ## The lookup over a history of calls and file-system changes -/
+
+/-- **history_contained.** For every configuration (any number of directories, any spelling, `filesystem_checks`
+on or off), every initial set of files, and every history of `get_template` / `has_template` calls interleaved with
+arbitrary file creations and deletions – inside or outside the directories –: every template the lookup ever
+returns (fresh, from the collection, or re-checked) has a file name that is, or lies below, one of the configured
+directories. -/
+theorem history_contained (c : LCfg) (files : List P) (ops : List Op) (src : P)
+    (h : Out.served src ∈ runFrom c (LState.init files) ops) :
+    ∃ d ∈ c.dirs, Below (normpath d) src := by
+  obtain ⟨u, hcheck, d, hd, rfl⟩ := runFrom_served c ops _ (init_inv c files) src h
+  exact ⟨d, hd, lookup_contained d u hcheck⟩
+
+/-- **has_agrees_get.** `has_template` answers `True` exactly when `get_template` on the same state serves a
+template, and leaves the same state behind: it is no existence oracle for files the lookup would refuse. -/
+theorem has_agrees_get (c : LCfg) (st : LState) (uri : P) :
+    (lstep c st (.has uri)).1 = (lstep c st (.get uri)).1 ∧
+      ((lstep c st (.has uri)).2 = .answer true ↔ ∃ src, (lstep c st (.get uri)).2 = .served src) := by
+  simp only [lstep]
+  split
+  · next st' src heq => simp [heq]
+  · next st' o hne heq =>
+    refine ⟨by simp [heq], ?_⟩
+    constructor
+    · intro h; simp at h
+    · rintro ⟨src, hs⟩
+      rw [heq] at hs
+      simp only at hs
+      subst hs
+      exact (hne _ rfl).elim
+
+/-- **has_true_contained.** Whenever `has_template` says `True`, the template `get_template` would hand out lies in
+or below a configured directory (any reachable state: stated for every state satisfying the collection invariant,
+which `runFrom_served`'s induction shows for all reachable ones). -/
+theorem has_true_contained (c : LCfg) (st : LState) (uri : P) (hinv : CollInv c st)
+    (h : (lstep c st (.has uri)).2 = .answer true) :
+    ∃ src, (lstep c st (.get uri)).2 = .served src ∧ ∃ d ∈ c.dirs, Below (normpath d) src := by
+  obtain ⟨src, hs⟩ := (has_agrees_get c st uri).2.mp h
+  obtain ⟨hcheck, d, hd, rfl⟩ := (getTemplate_inv c st uri hinv).2 src hs
+  exact ⟨_, hs, d, hd, lookup_contained d uri hcheck⟩
+
+/-- a concrete history (kernel-evaluated): an outside file exists throughout; the escaping spelling is rejected,
+`has_template` says no, the inside file is served, survives as a collection hit, and is dropped once deleted -/
+example :
+    runFrom { dirs := ["/srv/root/".toList], fsChecks := true }
+      (LState.init ["/srv/secret.txt".toList, "/srv/root/index.html".toList])
+      [.get "../secret.txt".toList, .has "/..\\secret.txt".toList, .get "//index.html".toList,
+       .add "/srv/rootx/index.html".toList, .get "//index.html".toList,
+       .del "/srv/root/index.html".toList, .get "//index.html".toList, .has "index.html".toList]
+    = [.rejected, .answer false, .served "/srv/root/index.html".toList, .none,
+       .served "/srv/root/index.html".toList, .none, .notFound, .answer false] := by decide
 
 /-! ## Non-vacuity and sanity: concrete instances (kernel evaluation of the model) -/
 
